@@ -15,6 +15,7 @@
 (*   frames    item lists of earlier frames, archived by Reset, with a flag *)
 (*             telling whether the frame had been closed successfully       *)
 (*   failed    the sink has reported a failure                             *)
+(*   done      the current frame has been closed successfully              *)
 (*                                                                         *)
 (* One action per public call; each mirrors the code path of writer.go:    *)
 (* Write cuts full blocks of exactly B bytes (zero-copy or accumulate path *)
@@ -29,16 +30,16 @@ EXTENDS Integers, Sequences
 CONSTANTS B,            \* block size in bytes
           Legacy        \* legacy frames have no trailer
 
-VARIABLES ws, pending, accepted, items, frames, failed
+VARIABLES ws, pending, accepted, items, frames, failed, done
 
-wvars == <<ws, pending, accepted, items, frames, failed>>
+wvars == <<ws, pending, accepted, items, frames, failed, done>>
 
 H == 0 - 1
 T == 0 - 2
 
 Init ==
     /\ ws = "new" /\ pending = 0 /\ accepted = 0
-    /\ items = <<>> /\ frames = <<>> /\ failed = FALSE
+    /\ items = <<>> /\ frames = <<>> /\ failed = FALSE /\ done = FALSE
 
 \* k full blocks of B bytes
 RECURSIVE Fulls(_)
@@ -54,14 +55,14 @@ Write(n) ==
     /\ pending' = (pending + n) % B
     /\ accepted' = accepted + n
     /\ ws' = "write"
-    /\ UNCHANGED <<frames, failed>>
+    /\ UNCHANGED <<frames, failed, done>>
 
 Flush ==
     /\ ws \in {"new", "write"} /\ ~failed
     /\ items' = items \o Started \o (IF pending > 0 THEN <<pending>> ELSE <<>>)
     /\ pending' = 0
     /\ ws' = "write"
-    /\ UNCHANGED <<accepted, frames, failed>>
+    /\ UNCHANGED <<accepted, frames, failed, done>>
 
 \* Close = Flush, then the trailer (end mark [+ content checksum]); legacy: nothing
 Close ==
@@ -69,7 +70,7 @@ Close ==
     /\ items' = items \o Started \o (IF pending > 0 THEN <<pending>> ELSE <<>>)
                 \o (IF Legacy THEN <<>> ELSE <<T>>)
     /\ pending' = 0
-    /\ ws' = "closed"
+    /\ ws' = "closed" /\ done' = TRUE
     /\ UNCHANGED <<accepted, frames, failed>>
 
 \* ReadFrom a source of n bytes: only on a Writer that has not written yet
@@ -79,25 +80,28 @@ ReadFrom(n) ==
     /\ accepted' = accepted + n
     /\ pending' = 0
     /\ ws' = "write"
-    /\ UNCHANGED <<frames, failed>>
+    /\ UNCHANGED <<frames, failed, done>>
 
 \* Reset: the frame in progress is abandoned as it is; a closed one is archived
 Reset ==
-    /\ frames' = Append(frames, [items |-> items, closed |-> (ws = "closed" /\ ~failed), accepted |-> accepted])
+    /\ frames' = Append(frames, [items |-> items, closed |-> done, accepted |-> accepted])
     /\ items' = <<>> /\ pending' = 0 /\ accepted' = 0
-    /\ ws' = "new" /\ failed' = FALSE
+    /\ ws' = "new" /\ failed' = FALSE /\ done' = FALSE
 
 \* calls that are refused and change nothing but possibly the lifecycle state
-WriteAfterClose == ws \in {"closed", "error"} /\ UNCHANGED wvars
+\* (a refused call leaves the Writer in its error state - that is what the code does - but the frame
+\* that was closed before stays what it was: done is not touched)
+Keep5 == UNCHANGED <<pending, accepted, items, frames, failed, done>>
+WriteAfterClose == ws \in {"closed", "error"} /\ ws' = "error" /\ Keep5
 CloseAgain      == ws = "closed" /\ UNCHANGED wvars
-ApplyLate       == ws \in {"write", "closed"} /\ ws' = "error" /\ UNCHANGED <<pending, accepted, items, frames, failed>>
-ReadFromLate    == ws = "write" /\ ws' = "error" /\ UNCHANGED <<pending, accepted, items, frames, failed>>
+ApplyLate       == ws \in {"write", "closed"} /\ ws' = "error" /\ Keep5
+ReadFromLate    == ws \in {"write", "closed"} /\ ws' = "error" /\ Keep5
 
 \* the sink reports a failure during a call that touches it: the Writer is in error from then on
 SinkFails ==
     /\ ws \in {"new", "write"} /\ ~failed
     /\ failed' = TRUE /\ ws' = "error"
-    /\ UNCHANGED <<pending, accepted, items, frames>>
+    /\ UNCHANGED <<pending, accepted, items, frames, done>>
 
 \* ---- properties -----------------------------------------------------------
 IsBlock(x) == x >= 0
@@ -110,7 +114,7 @@ Conservation == SumBlocks(items, Len(items)) + pending = accepted
 
 \* after Close the frame is exactly header, blocks, trailer and carries everything accepted
 ClosedFrameComplete ==
-    ws = "closed" =>
+    done =>
         /\ pending = 0
         /\ items # <<>> /\ items[1] = H
         /\ (~Legacy => items[Len(items)] = T)
